@@ -27,6 +27,8 @@ def run(ctx) -> None:
     r3_hand_back(ctx)
     r4_replacement_validation(ctx)
     r5_stateless(ctx)
+    from . import c05
+    c05.r5_reparse_sites(ctx, "C17.R6", placeholders=True)
 
 
 def r1_renderers_refuse(ctx) -> None:
